@@ -40,7 +40,7 @@ META = {
     },
 }
 CASES = {'quick': 1500, 'thorough': 120000}
-SECONDS = {'quick': 60, 'thorough': 600}
+SECONDS = {'quick': 300, 'thorough': 600}
 KINDS = ['single', 'single', 'ordered-split', 'ordered-split', 'repeated', 'nested', 'arbitrary-split']
 
 
